@@ -3,6 +3,7 @@ import O4.Model.Crypto.X25519
 import O4.Model.Crypto.Elligator
 import O4.Model.Crypto.ModExp
 import O4.Model.UniformDH
+import O4.Model.NtorKeygen
 /-!
 driver module `prim2` — public-key primitives (all byte strings hex; 32-byte keys little-endian as on the wire)
 
@@ -16,6 +17,7 @@ driver module `prim2` — public-key primitives (all byte strings hex; 32-byte k
 * `ell.cosetr <repr32>` → `<idx 0..7|x> <compressed Edwards ℓ·EdwardsFlavor(repr)>`
 * `ell.cosetp <priv32>` → `<idx 0..7|x> <compressed Edwards ℓ·(dirty point)>`
 * `ell.lop <c 0..255>` → `<x32> <y32> <oncurve 0|1>` (the low-order point selected by key byte c)
+* `ntor.newkeypair <0|1 elligator> <random tape hex>` → `exhausted` | `<priv> <pub> <repr|-> <consumed>`
 * `udh.gen <priv192>` → pub192; `udh.shared <priv192> <peerpub192>` → secret192
 * `modexp <b> <e> <m>` → big-endian hex (minimal length, `00` for zero); m = 0 is rejected
 -/
@@ -91,6 +93,14 @@ def step (_ : Unit) : List String → Unit × String
       let (x, y) := Ell2.lowOrderPoint (UInt8.ofNat c)
       ((), hex (F25519.toBytes x) ++ " " ++ hex (F25519.toBytes y) ++ " " ++
         boolStr (Ed.isOnCurve ⟨x, y, 1, F25519.mul x y⟩))
+    | none => ((), "bad-op")
+  | ["ntor.newkeypair", ell, tape] =>
+    match unhex? tape with
+    | some tape =>
+      if ell ≠ "0" ∧ ell ≠ "1" then ((), "bad-op") else
+      match O4.Ntor.newKeypair (ell == "1") tape with
+      | some k => ((), hex k.priv ++ " " ++ hex k.pub ++ " " ++ hex (k.repr.getD []) ++ " " ++ toString k.consumed)
+      | none => ((), "exhausted")
     | none => ((), "bad-op")
   | ["udh.gen", priv] =>
     match unhex? priv with
